@@ -196,7 +196,11 @@ T("C18", "keyword-call", "iodata/__main__.py", r"convert\(args\.input, args\.out
 M("C19", "filter-atoms", "iodata/inputs/common.py", r"\[atom_line\(data, iatom\) for iatom in range\(data\.natom\)\]", "[atom_line(data, iatom) for iatom in range(data.natom) if data.atnums[iatom] > 0]", "C19-R1")
 M("C19", "multiply-angstrom", "iodata/inputs/orca.py", r"atcoord = data\.atcoords\[iatom\] / angstrom", "atcoord = data.atcoords[iatom] * angstrom", "C19-R2")
 M("C19", "truncate-charge", "iodata/inputs/common.py", r"int\(np\.round\(data\.charge\)\)", "int(data.charge)", "C19-R3")
-M("C19", "update-before-defaults", "iodata/inputs/gaussian.py", r'    fields = \{\n        "lot": data\.lot or "hf",', '    fields = {}\n    fields.update(kwargs)\n    fields = {\n        **fields,\n        "lot": data.lot or "hf",', "C19-R4")
+M("C19", "defaults-override-kwargs", "iodata/inputs/gaussian.py", r"    fields\.update\(kwargs\)\n    write_input_base", "    fields = {**kwargs, **fields}\n    write_input_base", "C19-R4")
+T("C19", "kwargs-merged-twice", "iodata/inputs/gaussian.py", r'    fields = \{\n        "lot": data\.lot or "hf",', '    fields = {}\n    fields.update(kwargs)\n    fields = {\n        **fields,\n        "lot": data.lot or "hf",')
+M("C19", "falsy-kwargs-dropped", "iodata/inputs/orca.py", r"    fields\.update\(kwargs\)\n", "    fields.update({k: v for k, v in kwargs.items() if v})\n", "C19-R4")
+M("C19", "orca-unknown-runtype-fallback", "iodata/inputs/orca.py", r'orca_keywords\[\(data\.run_type or "energy"\)\.lower\(\)\]', 'orca_keywords.get((data.run_type or "energy").lower(), "Energy")', "C19-R5")
+T("C19", "charge-round-builtin", "iodata/inputs/common.py", r"int\(np\.round\(data\.charge\)\)", "int(round(data.charge))")
 M("C19", "runtype-table", "iodata/inputs/gaussian.py", r'"energy_force": "force",', '"energy_force": "freq",', "C19-R5")
 M("C19", "swap-coordinates", "iodata/inputs/gaussian.py", r"\{atcoord\[0\]:10\.6f\} \{atcoord\[1\]:10\.6f\} \{atcoord\[2\]:10\.6f\}", "{atcoord[1]:10.6f} {atcoord[0]:10.6f} {atcoord[2]:10.6f}", "C19-R2")
 T("C19", "rint-rounding", "iodata/inputs/common.py", r"int\(np\.round\(data\.charge\)\)", "int(np.rint(data.charge))")
